@@ -314,7 +314,7 @@ def build_table(w, fmt=None, fmt_obj=None, with_limits=True, ctx=None):
         kw["fmt_obj"] = fmt_obj
     limits = spec.get("limits") if (ctx is None or ctx.limits is _SPEC) else ctx.limits
     if with_limits and limits is not None:
-        kw["limits"] = tuple(limits)
+        kw["limits"] = tuple(limits) if len(recs) % 2 else list(limits)
     return w.PPTable(recs, header=spec.get("header"), footer=spec.get("footer"), **kw)
 
 
